@@ -480,6 +480,12 @@ def go_build(batch, dirs, chunk=200):
             if cur and cur in res:
                 res[cur] += line + '\n'
                 matched = True
+            else:
+                # errors reported before compilation (syntax errors found while listing) carry no "# package" header
+                m2 = re.match(r'(c\d{5})/', line)
+                if m2 and m2.group(1) in res:
+                    res[m2.group(1)] += line + '\n'
+                    matched = True
         if not matched:
             raise Broken('go build failed without attributable package: ' + se[-2000:])
     with ThreadPoolExecutor(max(1, min(len(chunks), 4))) as ex:
